@@ -129,7 +129,7 @@ class Run:
         return out
 
     def axioms(self):
-        ax = base_axioms() + self.ctx.literal_axioms() + card_axioms() + list_hash_axioms()
+        ax = base_axioms() + self.ctx.literal_axioms() + card_axioms() + list_hash_axioms() + list(self.ctx.heap_axioms)
         for fn in self.R.axioms:
             ax.extend(fn(self.ctx))
         return ax
